@@ -55,7 +55,7 @@ class Case final : public sim::CaseBase {
     const int k = 2 + static_cast<int>(g.Draw(4));
     for (int w = 0; w < k; ++w) {
       std::vector<Round> rs;
-      const int n = 1 + static_cast<int>(g.Draw(4));
+      const int n = 1 + static_cast<int>(g.Draw(sim::Thorough() ? 6 : 4));
       for (int r = 0; r < n; ++r) {
         Round rd;
         rd.lock = static_cast<int>(g.Draw(kLockFormCount));
